@@ -226,6 +226,42 @@ def install(M, knobs, report):
     EM.EventManager.add_handler = add_handler
     EM.EventManager.notify = notify
 
+    # ------------------------------------------------------------------ C15, one-to-many map loaders: what is handed to save(key, elements)
+    # is readable through the loader's own convert_one_to_many(key) right afterwards
+    import inspect
+
+    def wrap_one_to_many(cls):
+        orig_save_ = cls.save
+
+        def save_(self, key, content, *a, **kw):
+            try:
+                expected_ = [getattr(x_, "stmt_id", x_) for x_ in list(content)] if content is not None and not isinstance(content, (str, bytes)) else None
+            except Exception:  # noqa
+                expected_ = None
+            res_ = orig_save_(self, key, content, *a, **kw)
+            try:
+                if expected_:
+                    bump("c15_one_to_many_saves_checked")
+                    got_ = self.convert_one_to_many(key)
+                    got_ids = [getattr(x_, "stmt_id", x_) for x_ in (list(got_) if got_ is not None else [])]
+                    missing_ = [e_ for e_ in expected_ if e_ not in got_ids]
+                    if missing_ and len(report["c15"]) < 40:
+                        report["c15"].append({"cls": "saved_content_not_readable", "loader": cls.__name__, "family": cls.__name__, "id": "save",
+                                              "phase": "save", "expected": cjson(sorted(map(repr, expected_)))[:300],
+                                              "observed": cjson(sorted(map(repr, got_ids)))[:300]})
+            except Exception:  # noqa
+                bump("c15_monitor_errors")
+            return res_
+        cls.save = save_
+
+    for _n, _cls in inspect.getmembers(L, inspect.isclass):
+        if _cls.__module__ == L.__name__ and "save" in vars(_cls) and hasattr(_cls, "convert_one_to_many"):
+            try:
+                if len(inspect.signature(_cls.save).parameters) == 3:
+                    wrap_one_to_many(_cls)
+            except (TypeError, ValueError):
+                pass
+
     # ------------------------------------------------------------------ C19 monitor
     from checks.c19 import Model as PathModel
     models = {}
